@@ -4,6 +4,7 @@ how many cases per tier, what is assumed.  (DESIGN.md §6)"""
 PROPS = {
     "C14": {
         "lean_module": "LispModel.Props.C14",
+        "tie_modules": ["LispModel.Tie.SyntaxEqual"],
         "engines": [{"name": "eq", "quick": 20000, "thorough": 400000},
                     {"name": "eqexpr", "quick": 1, "thorough": 1, "deterministic": True}],
         "technique": "Lean 4 theorem (equalQ = structural equality, equivalence) + differential correspondence with types.Equal_Q",
@@ -24,6 +25,7 @@ PROPS = {
 
 PROPS["C05"] = {
     "lean_module": "LispModel.Props.C05",
+    "tie_modules": ["LispModel.Tie.SyntaxReader"],
     "engines": [{"name": "scan", "quick": 20000, "thorough": 300000},
                 {"name": "read", "quick": 20000, "thorough": 300000},
                 {"name": "rwp", "quick": 15000, "thorough": 200000}],
@@ -40,6 +42,7 @@ PROPS["C05"] = {
 }
 PROPS["C06"] = {
     "lean_module": "LispModel.Props.C06",
+    "tie_modules": ["LispModel.Tie.SyntaxPrint"],
     "engines": [{"name": "print", "quick": 20000, "thorough": 400000},
                 {"name": "reread", "quick": 15000, "thorough": 300000}],
     "technique": "Lean 4 round-trip theorems (escape/unescape, printed tokens) + differential correspondence of PRINT/READ",
@@ -51,6 +54,7 @@ PROPS["C06"] = {
 }
 PROPS["C15"] = {
     "lean_module": "LispModel.Props.C15",
+    "tie_modules": ["LispModel.Tie.SyntaxPrint"],
     "engines": [{"name": "preamble", "quick": 15000, "thorough": 300000}],
     "technique": "Lean 4 theorems about the preamble line format and placeholder substitution + differential correspondence of AddPreamble/READWithPreamble",
     "level_text": "Theorems about the Lean mirror of AddPreamble/READWithPreamble/read_placeholder; tie: READWithPreamble(AddPreamble(src, m)) versus "
@@ -60,6 +64,7 @@ PROPS["C15"] = {
 }
 PROPS["C16"] = {
     "lean_module": "LispModel.Props.C16",
+    "tie_modules": ["LispModel.Tie.SyntaxReader"],
     "engines": [{"name": "cut", "quick": 2500, "thorough": 40000}],
     "technique": "Lean 4 theorems about the reader on token prefixes + differential correspondence on cut/extended expressions incl. the REPL's multiLine verdict",
     "level_text": "Theorems over token sequences (incomplete prefix reports the innermost closer; complete expressions are never reported incomplete; surplus "
@@ -90,7 +95,8 @@ PROPS["C03"] = {
     "model_is_spec": ['try', 'goerr'],
     "lean_module": "LispModel.Props.C03",
     "engines": [{"name": "try", "quick": 5000, "thorough": 100000},
-                {"name": "goerr", "quick": 2000, "thorough": 40000}],
+                {"name": "goerr", "quick": 2000, "thorough": 40000},
+                {"name": "lerr", "quick": 3000, "thorough": 60000}],
     "technique": "Lean 4 theorems about the try/catch/finally arm of the evaluator model + differential correspondence on nested try programs",
     "level_text": "Theorems: value of try = body value or handler value (returned, not re-evaluated), catch variable scoped to the handler, finally runs exactly "
                   "once on every path without changing the outcome, thrown payload unchanged through calls / builtin callbacks / nested tries; tie: generated "
@@ -249,7 +255,8 @@ PROPS["C02"] = {
     "lean_module": "LispModel.Props.C02",
     "tie_modules": ["LispModel.Tie.Appends"],
     "engines": [{"name": "hist", "quick": 4000, "thorough": 100000},
-                {"name": "pkgreg", "quick": 1500, "thorough": 40000}],
+                {"name": "pkgreg", "quick": 1500, "thorough": 40000},
+                {"name": "meta", "quick": 3000, "thorough": 60000}],
     "technique": "Lean 4 frame theorem over a Go slice/array heap model + regenerated append-site facts + differential correspondence on operation histories",
     "level_text": "Kernel-checked: every collection builtin, modelled at the level of Go slices (backing array, offset, length, capacity, append in place "
                   "when capacity allows), refines its pure meaning and leaves every live value reading back unchanged (step_frame), hence histories of any "
